@@ -12,6 +12,15 @@ P = {
   "All redirect shapes inside the bound (chains 0..13 x terminal kind x types dependency, cycles 1..4 x tails 0..3, two loader redirect limits, second entry points, lockfile-seeded chains 1..15 and cycles with/without a build) are built with the real builder and every lookup is compared with the walk on every specifier of interest; the space is enumerated completely (Full), so the verdict is a coverage statement for that space.",
   "Trusted: the harness loader/driver, ModuleGraph::walk as the reference (the property names it as such). Shapes beyond the bound are not covered.",
   "DESIGN.md §4 C14", TECH + "; Full enumeration of redirect shapes"),
+
+ "C06": (True,
+  "The version-selection routine the builder calls is evaluated on every registry over the version domain (each version absent/live/yanked x created_at none/before/at/after the cutoff), every requirement, every set of already-selected and cached versions and every date/exclusion configuration, and compared with a declarative four-tier reference; complete enumeration of that bounded domain.",
+  "Function level only so far (graph-level bookkeeping: planned part). Trusted: deno_semver's VersionReq::matches and Version ordering (used by both sides).",
+  "DESIGN.md §4 C06", TECH + "; Full enumeration of the bounded selection domain against a reference model"),
+ "C20": (True,
+  "Every byte string over a 19-atom alphabet up to the tier's length is loaded as a root module under every charset header x scheme x media type through the real builder; stored text, try_get_original_bytes and the serialised size are compared with an independent reference decoder (WHATWG UTF-16 state machine, from_utf8_lossy, cp1252 table). Complete enumeration.",
+  "Trusted: the reference decoder, std's from_utf8_lossy. TS modules whose decoded text does not parse are unobservable (JSON modules cover every string).",
+  "DESIGN.md §4 C20", TECH + "; Full enumeration of byte strings x charset x scheme x media type against an independent decoder"),
 }
 
 ALL = ["C%02d" % i for i in range(1, 21)]
